@@ -37,6 +37,7 @@ func checkC11(p *Prog, r *Report) {
 	ruleAdjustChain(p, r)
 	ruleBoxTbl(p, r)
 	ruleBoxPure(p, r)
+	ruleCursor(p, r)
 	r.Floor("BOXPURE", 1)
 	r.Floor("ADJ", 1)
 	r.Floor("NONNEG", 8)
